@@ -1,5 +1,5 @@
 """C04 Every uplink follows the WARP link state machine; no fabricated frames."""
-from mirlib import op_place, describe_place, AnchorMissing, describe_operand, dom_guards, guards, _suffix_match
+from mirlib import describe_rvalue, op_place, describe_place, AnchorMissing, describe_operand, dom_guards, guards, _suffix_match
 from rules import uplinks
 from rules.common import named_argument_rule, aggregates, callers_by_name, owner_def, where
 
@@ -26,12 +26,22 @@ def run(ctx):
         pw = ctx.saw(rt.fn(suffix="write_fut::perform_write::{closure#0}"))
         sends = [c for c in pw.calls if c.name == "send_notification"]
         table = {}
-        for c in sends:
-            g = dom_guards(pw, c.block)
+        def arm_key(g):
             v = [l for d, l, _ in g if d == "disc(action)"]
             sub = [l for d, l, _ in g if d == "disc(action<Special>.0)"]
-            key = (v[0] if v else "?") + ("(%s)" % sub[0] if sub else "")
-            table.setdefault(key, []).append((c, describe_operand(pw, c.args[1]), g))
+            return (v[0] if v else "?") + ("(%s)" % sub[0] if sub else "")
+        for c in sends:
+            g = dom_guards(pw, c.block)
+            # one send whose notification was chosen by an inner match (`let n = match special {..}; send(n)`): one table entry per choice
+            pl = op_place(c.args[1])
+            root = pw.copy_root(pl) if pl is not None and not pl[1] else None
+            defs = [d_ for d_ in pw.defs.get(root, ())] if root is not None else []
+            if len(defs) > 1 and all(d_[0] == "assign" for d_ in defs):
+                for d_ in defs:
+                    gg = dom_guards(pw, d_[1])
+                    table.setdefault(arm_key(gg), []).append((c, describe_rvalue(pw, d_[3]), gg))
+                continue
+            table.setdefault(arm_key(g), []).append((c, describe_operand(pw, c.args[1]), g))
         want = {
             "Event": ["Notification::Event(buffer)"],
             "ValueSynced": ["Notification::Event(buffer)", "Notification::Synced()"],
